@@ -194,3 +194,197 @@ func runAppendAlias(p *Prog, r *Report) {
 	r.Counts["E3.write-sites-examined"] = sub.Counts["E3.write-sites"]
 	r.Clauses = append(r.Clauses, "E3 (shared engine) no append result is bound to a different variable than its first argument (two live slices sharing a backing array), and no write reaches caller-owned memory")
 }
+
+// runCrossFile: in package reference, ranges of targets and origins collected from
+// different files meet. A byte-offset containment test between them (ContainsPos /
+// ContainsOffset) decides nothing unless the two ranges are known to be in the same file:
+// every such test needs a Filename equality on its receiver on every path.
+func runCrossFile(p *Prog, r *Report) {
+	n := 0
+	for _, fn := range p.Funcs {
+		if !strings.HasSuffix(fn.Pkg.PkgPath, "hcl-lang/reference") {
+			continue
+		}
+		info := fn.Info()
+		ast.Inspect(fn.Body, func(x ast.Node) bool {
+			call, ok := x.(*ast.CallExpr)
+			if !ok {
+				return true
+			}
+			sel, ok := ast.Unparen(call.Fun).(*ast.SelectorExpr)
+			if !ok || (sel.Sel.Name != "ContainsPos" && sel.Sel.Name != "ContainsOffset") {
+				return true
+			}
+			if t := info.TypeOf(sel.X); t == nil || !isHclRange(t) {
+				return true
+			}
+			n++
+			rc := fn.Canon(sel.X)
+			construct := exprStr(sel.X) + "." + sel.Sel.Name
+			ok2 := fn.GuardsAt(call).Holds(func(a *Atom) bool {
+				if a.E == nil {
+					return false
+				}
+				be, isBe := ast.Unparen(a.E).(*ast.BinaryExpr)
+				if !isBe || (be.Op != token.EQL && be.Op != token.NEQ) {
+					return false
+				}
+				same := (be.Op == token.EQL) == a.Pol
+				if !same {
+					return false
+				}
+				for _, side := range []ast.Expr{be.X, be.Y} {
+					if s2, ok := ast.Unparen(side).(*ast.SelectorExpr); ok && s2.Sel.Name == "Filename" {
+						c := fn.Canon(s2.X)
+						if c == rc || c == strings.TrimSuffix(rc, ".Ptr()") {
+							return true
+						}
+					}
+				}
+				return false
+			})
+			if ok2 {
+				r.Add("E6.cross-file-compare", fn.Name, construct, p.Pos(call), OK, "byte containment is tested only after the range's Filename was compared", true)
+			} else {
+				r.Add("E6.cross-file-compare", fn.Name, construct, p.Pos(call), Violated,
+					"byte offsets of "+exprStr(sel.X)+" are compared with a position that may belong to another file: no Filename comparison on every path to this test", true)
+			}
+			return true
+		})
+	}
+	r.ExpectMin("E6.containment-tests-in-reference", n, 6)
+	r.Clauses = append(r.Clauses, "in package reference every byte-offset containment test on a target/origin range is preceded on every path by a Filename equality on that range (block-local names never leak across files)")
+}
+
+// runWhoMayCall: helpers that implement one constraint kind's candidates may only be
+// called from that kind's decoder (sibling helpers share a signature, so a swap compiles).
+var whoMayCall = map[string][]string{
+	"boolLiteralTypeCandidates":  {"LiteralType"},
+	"boolLiteralValueCandidates": {"LiteralValue"},
+}
+
+func runWhoMayCall(p *Prog, r *Report) {
+	n := 0
+	for _, fn := range p.Funcs {
+		info := fn.Info()
+		ast.Inspect(fn.Body, func(x ast.Node) bool {
+			call, ok := x.(*ast.CallExpr)
+			if !ok {
+				return true
+			}
+			f := calleeOf(info, call)
+			if f == nil {
+				return true
+			}
+			allowed, ok := whoMayCall[f.Name()]
+			if !ok || !strings.HasPrefix(f.Pkg().Path(), modPath) {
+				return true
+			}
+			n++
+			recv := ""
+			root := fn
+			for root.Parent != nil {
+				root = root.Parent
+			}
+			if root.Obj != nil {
+				if sig := root.Obj.Type().(*types.Signature); sig.Recv() != nil {
+					if nt := namedOf(sig.Recv().Type()); nt != nil {
+						recv = nt.Obj().Name()
+					}
+				}
+			}
+			okc := false
+			for _, a := range allowed {
+				if a == recv {
+					okc = true
+				}
+			}
+			if okc {
+				r.Add("E1.who-may-call", fn.Name, "call "+f.Name(), p.Pos(call), OK, "called from its own constraint kind's decoder", false)
+			} else {
+				r.Add("E1.who-may-call", fn.Name, "call "+f.Name(), p.Pos(call), Violated,
+					f.Name()+" produces the candidates of "+strings.Join(allowed, "/")+" and must not serve "+recv+" (same signature as its sibling helper)", true)
+			}
+			return true
+		})
+	}
+	r.ExpectMin("E1.who-may-call-sites", n, 4)
+	r.Clauses = append(r.Clauses, "candidate helpers of one constraint kind are called only from that kind's decoder")
+}
+
+// runDispatch (E7): every named type of package schema that implements schema.Constraint
+// is a case of the type switch in the decoder's newExpression, and that function never
+// returns nil.
+func runDispatch(p *Prog, r *Report) {
+	var schemaPkg *types.Package
+	for _, pk := range p.Pkgs {
+		if strings.HasSuffix(pk.PkgPath, "hcl-lang/schema") {
+			schemaPkg = pk.Types
+		}
+	}
+	if schemaPkg == nil {
+		r.Add("E7.dispatch", "-", "schema package", "-", Undecided, "package schema not found", false)
+		return
+	}
+	co, _ := schemaPkg.Scope().Lookup("Constraint").(*types.TypeName)
+	if co == nil {
+		r.Add("E7.dispatch", "-", "schema.Constraint", "-", Undecided, "interface schema.Constraint not found", false)
+		return
+	}
+	iface := co.Type().Underlying().(*types.Interface)
+	var impls []string
+	for _, name := range schemaPkg.Scope().Names() {
+		tn, ok := schemaPkg.Scope().Lookup(name).(*types.TypeName)
+		if !ok || tn == co {
+			continue
+		}
+		if _, isIface := tn.Type().Underlying().(*types.Interface); isIface {
+			continue
+		}
+		if types.Implements(tn.Type(), iface) {
+			impls = append(impls, name)
+		}
+	}
+	r.ExpectMin("E7.constraint-kinds", len(impls), 10)
+	for _, fn := range p.Funcs {
+		if bareFuncName(fn) != "newExpression" || fn.Decl == nil || fn.Decl.Recv != nil {
+			continue
+		}
+		info := fn.Info()
+		cases := map[string]bool{}
+		ast.Inspect(fn.Body, func(x ast.Node) bool {
+			ts, ok := x.(*ast.TypeSwitchStmt)
+			if !ok {
+				return true
+			}
+			for _, c := range ts.Body.List {
+				for _, t := range c.(*ast.CaseClause).List {
+					if tt := info.TypeOf(t); tt != nil {
+						if n := namedOf(tt); n != nil {
+							cases[n.Obj().Name()] = true
+						}
+					}
+				}
+			}
+			return true
+		})
+		for _, name := range impls {
+			if cases[name] {
+				r.Add("E7.dispatch", fn.Name, "case schema."+name, p.Pos(fn.Decl), OK, "constraint kind is dispatched to its decoder", false)
+			} else {
+				r.Add("E7.dispatch", fn.Name, "case schema."+name, p.Pos(fn.Decl), Violated, "constraint kind schema."+name+" has no case in newExpression: values of that kind are treated as unknown expressions by every feature", true)
+			}
+		}
+		ast.Inspect(fn.Body, func(x ast.Node) bool {
+			if rs, ok := x.(*ast.ReturnStmt); ok {
+				for _, res := range rs.Results {
+					if isNilIdent(info, res) {
+						r.Add("E7.dispatch", fn.Name, "return nil", p.Pos(rs), Violated, "newExpression returns nil: every caller invokes a method on the result", true)
+					}
+				}
+			}
+			return true
+		})
+	}
+	r.Clauses = append(r.Clauses, "E7 every schema type implementing schema.Constraint has a case in newExpression, which never returns nil")
+}
